@@ -2,7 +2,6 @@ package gomatrixserverlib
 
 import (
 	"bytes"
-	"encoding/json"
 	"fmt"
 	"strings"
 
@@ -80,7 +79,7 @@ func newEventFromUntrustedJSONV3(eventJSON []byte, roomVersion IRoomVersion) (PD
 		}
 	}
 
-	if err = json.Unmarshal(eventJSON, res); err != nil {
+	if err = unmarshalExact(eventJSON, res); err != nil {
 		return nil, err
 	}
 
@@ -139,7 +138,7 @@ func newEventFromUntrustedJSONV3(eventJSON []byte, roomVersion IRoomVersion) (PD
 
 func newEventFromTrustedJSONV3(eventJSON []byte, redacted bool, roomVersion IRoomVersion) (PDU, error) {
 	res := eventV3{}
-	if err := json.Unmarshal(eventJSON, &res); err != nil {
+	if err := unmarshalExact(eventJSON, &res); err != nil {
 		return nil, err
 	}
 
@@ -161,7 +160,7 @@ func newEventFromTrustedJSONV3(eventJSON []byte, redacted bool, roomVersion IRoo
 
 func newEventFromTrustedJSONWithEventIDV3(eventID string, eventJSON []byte, redacted bool, roomVersion IRoomVersion) (PDU, error) {
 	res := &eventV3{}
-	if err := json.Unmarshal(eventJSON, res); err != nil {
+	if err := unmarshalExact(eventJSON, res); err != nil {
 		return nil, err
 	}
 
